@@ -243,7 +243,12 @@ def judge(job, inputs, verbose=False, prebuilt=None):
     ns['result'] = result
     ns['out'] = result
     known = False
-    for reg_ in job.get('known_regions', []):
+    kinds = job.get('known_region_kinds') or ['any'] * len(job.get('known_regions', []))
+    for reg_, kind_ in zip(job.get('known_regions', []), kinds):
+        # a finding about a value (a postcondition / invariant obligation) does not cover an exception the contract does not
+        # allow, and a finding about an exception does not cover a wrong value: a different violation is still reported
+        if (kind_ == 'post' and exc is not None) or (kind_ == 'exc' and exc is None):
+            continue
         try:
             if eval_spec(reg_, dict(pre_ns), pre_ns, glob):
                 known = True
